@@ -35,6 +35,22 @@ fn read_sources(heap: &mut Heap, specs: &[String]) -> (HashMap<ModuleReference, 
   (m, names)
 }
 
+/// vdriver exprloc <file>   -> {"loc":[start line, start column, end line, end column],"errors":n}
+/// Parses the file as ONE expression with the real lexer + parser and prints the source range of the expression.
+pub fn exprloc_cmd(args: &[String]) {
+  let heap = &mut Heap::new();
+  let text = std::fs::read_to_string(&args[0]).expect("readable source");
+  let mr = heap.alloc_module_reference_from_string_vec(vec!["E".to_string()]);
+  let mut error_set = ErrorSet::new();
+  let (_, e) = samlang_parser::parse_source_expression_from_text(&text, mr, heap, &mut error_set);
+  let l = e.loc();
+  println!(
+    "{{\"loc\":[{},{},{},{}],\"errors\":{}}}",
+    l.start.0, l.start.1, l.end.0, l.end.1,
+    error_set.errors().len()
+  );
+}
+
 /// vdriver typecheck <module=path>...   -> one JSON object: {"errors": "<rendered, no frames>"}
 /// std modules are always available (as the CLI does).
 pub fn typecheck_cmd(args: &[String]) {
